@@ -315,6 +315,12 @@ def handle (toks : List String) : String :=
         showNatList (Scales.chunkSizes ds e L) ++ "/" ++
         showNatList (ds.map fun d => Scales.fac L d))
     | _, _, _ => "bad-request"
+  | ["vol-chunks", size, cs] =>
+    match (parseList parseNat size).bind triple, (parseList parseNat cs).bind triple with
+    | some s, some c =>
+      ";".intercalate ((Tiling.volumeLoop s c).map fun (rx, ry, rz) =>
+        s!"{rx.1},{rx.2},{ry.1},{ry.2},{rz.1},{rz.2}")
+    | _, _ => "bad-request"
   | _ => "bad-request"
 
 partial def loop (h : IO.FS.Stream) (out : IO.FS.Stream) : IO Unit := do
